@@ -267,4 +267,218 @@ example : readChain [some (some 1), some (some 2), some (some 0)] 4 0 = .err := 
 example : readChain [some (some 1), none] 3 0 = .err := by decide
 example : readChain [some (some 1), some (some 2), some none] 4 0 = .ok 3 := by decide
 
+-- ===================================================================================================
+-- 7. numeric parameters with arbitrary values
+
+/-- **Cross-reference stream sections (D34)**: for every word size, every count, every /W triple
+    (zero, 2^64 − 1, …), every amount of data, both option sets: sizing a section returns a count or an
+    error — no overflow, no division by zero. -/
+theorem xref_count_total (bits : Nat) (tolerant : Bool) (num w0 w1 w2 len : Nat) :
+    xrefCount bits true tolerant num w0 w1 w2 len ≠ .panic ∧ xrefCount bits true tolerant num w0 w1 w2 len ≠ .oof :=
+  xrefCount_ne_bad bits tolerant num w0 w1 w2 len
+
+/-- **Reading a section is total and consumes what it produces**: the entries read take
+    `entries · (w0+w1+w2) ≥ entries` bytes of the data, so a section can never yield more entries than
+    the stream has bytes, whatever /Index claims (memory in proportion to the file). -/
+theorem xref_section_total (bits : Nat) (tolerant : Bool) (num : Nat) (width data : List Nat) :
+    xrefSection bits true tolerant num width data ≠ .panic ∧ xrefSection bits true tolerant num width data ≠ .oof ∧
+    ∀ es rest, xrefSection bits true tolerant num width data = .ok (es, rest) →
+      es.length ≤ num ∧ es.length + rest.length ≤ data.length := by
+  unfold xrefSection
+  split
+  · rename_i w0 w1 w2
+    have hc := xrefCount_ne_bad bits tolerant num w0 w1 w2 data.length
+    split
+    · rename_i n hn
+      have hb := xrefCount_bound bits tolerant num w0 w1 w2 data.length n hn
+      have hr := readEntries_ne_bad w0 w1 w2 n data []
+      refine ⟨hr.1, hr.2, ?_⟩
+      intro es rest h
+      have := readEntries_consumes w0 w1 w2 n data [] es rest h
+      simp only [List.length_nil, Nat.zero_add] at this
+      have h1 : n * 1 ≤ n * (w0 + w1 + w2) := Nat.mul_le_mul_left n hb.1
+      refine ⟨by omega, by omega⟩
+    · simp
+    · rename_i e; exact absurd e hc.1
+    · rename_i e; exact absurd e hc.2
+  · simp
+
+/-- the /Index loop over any list of (first, count) pairs is total -/
+theorem xref_sections_total (bits : Nat) (tolerant : Bool) (width : List Nat) :
+    ∀ (pairs : List (Nat × Nat)) (data : List Nat) (acc : List (Nat × List XEntry)),
+      xrefSections bits true tolerant width pairs data acc ≠ .panic ∧ xrefSections bits true tolerant width pairs data acc ≠ .oof := by
+  intro pairs
+  induction pairs with
+  | nil => intro data acc; simp [xrefSections]
+  | cons p rest ih =>
+    intro data acc
+    obtain ⟨first, num⟩ := p
+    unfold xrefSections
+    have h := xref_section_total bits tolerant num width data
+    split
+    · exact ih _ _
+    · simp
+    · rename_i e; exact absurd e h.1
+    · rename_i e; exact absurd e h.2.1
+
+/-- **D34 before the repair**, 32-bit `usize` (wasm32): the product overflows. On every word size: with
+    /W [0 0 0] any count was accepted and read from no data at all (2^31 entries from an empty stream). -/
+theorem xrefOld_overflows : xrefCount 32 false false 65536 65536 0 0 100 = .panic := by decide
+theorem xrefOld_zero_width_accepts_any_count (bits : Nat) (tolerant : Bool) (num len : Nat) (h : fits bits 0 = true) :
+    xrefCount bits false tolerant num 0 0 0 len = .ok num := by
+  simp [xrefCount, h]
+example : readEntries 0 0 0 3 [] [] = .ok ([.raw 0 0, .raw 0 0, .raw 0 0], []) := by decide
+example : xrefCount 64 true true 2147483647 0 0 0 100 = .err := by decide
+/-- an honest section: 3 entries of 1+2+1 bytes; a tolerant reader truncates a lying count -/
+example : xrefSection 64 true false 2 [1, 2, 1] [1, 0, 17, 0, 2, 0, 5, 1] = .ok ([.raw 17 0, .stream 5 1], []) := by decide
+example : xrefCount 64 true true 1000 1 2 1 8 = .ok 2 := by decide
+example : xrefCount 64 true false 1000 1 2 1 8 = .err := by decide
+
+/-- **Object-stream members**: for every /First, every offset table, every index and data length the byte
+    range of a member is computed without overflow, and a range that is returned lies inside the data. -/
+theorem obj_slice_total (bits : Nat) (first : Nat) (offsets : List Nat) (index dataLen : Nat) :
+    objSlice bits true first offsets index dataLen ≠ .panic ∧ objSlice bits true first offsets index dataLen ≠ .oof ∧
+    ∀ s e, objSlice bits true first offsets index dataLen = .ok (s, e) → s ≤ e ∧ e ≤ dataLen := by
+  unfold objSlice
+  split
+  · simp
+  · rename_i hi
+    have hstop : objStop bits true first offsets index dataLen ≠ .panic ∧ objStop bits true first offsets index dataLen ≠ .oof := by
+      unfold objStop
+      split
+      · simp
+      · split
+        · rename_i hnone
+          have := List.getElem?_eq_none_iff.1 hnone
+          omega
+        · split <;> simp
+    split
+    · rename_i hnone
+      have := List.getElem?_eq_none_iff.1 hnone
+      omega
+    · split
+      · simp
+      · split
+        · split
+          · refine ⟨by simp, by simp, ?_⟩
+            intro s e h
+            simp only [Out.ok.injEq, Prod.mk.injEq] at h
+            omega
+          · simp
+        · simp
+        · rename_i e; exact absurd e hstop.1
+        · rename_i e; exact absurd e hstop.2
+
+/-- before the repair `/First 1` plus the offset 2^64 − 1 overflowed; now it is an error -/
+theorem objSliceOld_panics : objSlice 64 false 1 [0, 18446744073709551615] 0 20 = .panic := by decide
+example : objSlice 64 true 1 [0, 18446744073709551615] 0 20 = .err := by decide
+example : objSlice 64 true 10 [0, 3] 0 18 = .ok (10, 13) ∧ objSlice 64 true 10 [0, 3] 1 18 = .ok (13, 18) := by decide
+
+/-- **/Differences**: for every sequence of codes (any `i32`, negative ones included) and names the
+    running code is advanced without overflow. -/
+theorem differences_total : ∀ (parts : List DPart) (gid : Nat) (m : List (Nat × Nat)),
+    differences true parts gid m ≠ .panic ∧ differences true parts gid m ≠ .oof := by
+  intro parts
+  induction parts with
+  | nil => intro gid m; simp [differences]
+  | cons p rest ih =>
+    intro gid m
+    cases p with
+    | code c => simp only [differences]; exact ih _ _
+    | name n =>
+      simp only [differences]
+      split
+      · simp
+      · exact ih _ _
+    | other => simp [differences]
+
+theorem differencesOld_panics : differences false [.code (-1), .name 7] 0 [] = .panic := by decide
+example : differences true [.code (-1), .name 7] 0 [] = .err := by decide
+example : differences true [.code 32, .name 1, .name 2, .code 32, .name 3] 0 [] = .ok [(32, 3), (33, 2)] := by decide
+
+/-- **PostScript programs**: cutting the body out of any byte string is total … -/
+theorem ps_body_total (s : List Nat) : psBody true s ≠ .panic ∧ psBody true s ≠ .oof := by
+  unfold psBody
+  split
+  · split <;> simp
+  · simp
+
+/-- … and so is running any program on any stack, for every arithmetic of the value type and every
+    result of the float-to-integer casts (`roll` with a count beyond the stack, a shift beyond the count,
+    the most negative shift; `index` beyond the stack; underflow in every operator). -/
+theorem ps_exec_total {V : Type} (A : Arith V) (ops : List (PsOp V)) (input : List V) (outLen : Nat) :
+    exec A true ops input outLen ≠ .panic ∧ exec A true ops input outLen ≠ .oof := by
+  unfold exec
+  have h := execInner_ne_bad A ops input
+  split
+  · split <;> simp
+  · simp
+  · rename_i e; exact absurd e h.1
+  · rename_i e; exact absurd e h.2
+
+/-- integer arithmetic as a stand-in for f32 in the witnesses (casts: identity, negatives to 0) -/
+def intArith : Arith Int := ⟨id, (· + ·), (· - ·), (· * ·), fun x => (Int.natAbs x : Int), id, Int.toNat⟩
+
+/-- **D35 before the repair**: `}{`, `1 2 2 5 roll`, `5 1 roll`, and the most negative shift -/
+theorem psOld_panics :
+    psBody false [125, 123] = .panic ∧
+    execInner intArith false [.int 1, .int 2, .int 2, .int 5, .roll] [] = .panic ∧
+    execInner intArith false [.int 5, .int 1, .roll] [] = .panic ∧
+    execInner intArith false [.int 1, .int 1, .int isizeMin, .roll] [] = .panic := by decide
+example : psBody true [125, 123] = .err := by decide
+example : execInner intArith true [.int 1, .int 2, .int 2, .int 5, .roll] [] = .ok [2, 1] := by decide
+example : execInner intArith true [.int 5, .int 1, .roll] [] = .err := by decide
+example : execInner intArith true [.int 1, .int 2, .int 3, .int 3, .int (-1), .roll] [] = .ok [2, 3, 1] := by decide
+example : execInner intArith true [.int 1, .int 2, .int 3, .int 3, .int 1, .roll] [] =
+    execInner intArith false [.int 1, .int 2, .int 3, .int 3, .int 1, .roll] [] := by decide
+
+/-- **CCITT dimensions**: any /Columns and /Rows are accepted or rejected, never divided by. -/
+theorem fax_dims_total (columns rows : Nat) : faxDims true columns rows ≠ .panic ∧ faxDims true columns rows ≠ .oof := by
+  unfold faxDims
+  rw [if_pos rfl]
+  split
+  · simp
+  · split <;> simp
+
+theorem faxOld_panics : faxDims false 0 5 = .panic ∧ faxDims false 4294967295 4294967295 = .panic := by decide
+
+-- ===================================================================================================
+-- 8. what this does not carry
+
+/-- The full-strength statement for the modelled layer: *every* read entry point of the model is total.
+    It is proved below without exclusions; what C14 as a whole does not get from it is listed in
+    `claims/C14.json` (derive-generated loaders and third-party decoders are covered by the generic guard
+    model plus the walker search, not line by line; three defects owned by other work packages — D33 width
+    arrays, D18 key lengths, D13/D14 filter geometry — are open known findings). -/
+def C14_model_full : Prop :=
+  (∀ (g : Graph) (tol : Bool) (k : Nat), Out.Returns (load g tol (g.length + 1) [] k)) ∧
+  (∀ (g : List Stored) (p : Prim), Out.Returns (fromPrim g 2 p)) ∧
+  (∀ (g : List TNode) (root : TNode), Out.Returns (walkTree g root).out) ∧
+  (∀ (g : List PNode) (kids : List Nat) (n : Nat), Out.Returns (page g true kids n).out) ∧
+  (∀ (g : List CObj) (k : Nat), Out.Returns (csLoad g 5 k)) ∧
+  (∀ (secs : Sections) (start : Nat), Out.Returns (readChain secs (secs.length + 1) start)) ∧
+  (∀ bits tol num width data, Out.Returns (xrefSection bits true tol num width data)) ∧
+  (∀ bits first offsets index len, Out.Returns (objSlice bits true first offsets index len)) ∧
+  (∀ parts, Out.Returns (differences true parts 0 [])) ∧
+  (∀ s, Out.Returns (psBody true s)) ∧
+  (∀ (ops : List (PsOp Int)) input outLen, Out.Returns (exec intArith true ops input outLen)) ∧
+  (∀ c r, Out.Returns (faxDims true c r))
+
+theorem C14_model_total : C14_model_full := by
+  refine ⟨?_, ?_, ?_, ?_, ?_, ?_, ?_, ?_, ?_, ?_, ?_, ?_⟩
+  · intro g tol k; exact ⟨guarded_load_never_panics g tol _ _ _, guarded_load_terminates g tol k⟩
+  · intro g p; exact ⟨(fromPrim_total g p).2, (fromPrim_total g p).1⟩
+  · intro g root; exact walk_total g root
+  · intro g kids n; exact page_total g kids n
+  · intro g k; exact colorspace_total g k
+  · intro secs start; exact ⟨(prev_loop_terminates secs start).2, (prev_loop_terminates secs start).1⟩
+  · intro bits tol num width data
+    exact ⟨(xref_section_total bits tol num width data).1, (xref_section_total bits tol num width data).2.1⟩
+  · intro bits first offsets index len
+    exact ⟨(obj_slice_total bits first offsets index len).1, (obj_slice_total bits first offsets index len).2.1⟩
+  · intro parts; exact differences_total parts 0 []
+  · intro s; exact ps_body_total s
+  · intro ops input outLen; exact ps_exec_total intArith ops input outLen
+  · intro c r; exact fax_dims_total c r
+
 end C14
